@@ -21,7 +21,7 @@ Print Assumptions C13_double_unitary.
 
 (* 2. the 2m x 2m matrix of a circuit mixing spatial and polarising leaves (any nesting depth, offsets,
       sizes) is the ordered product of its leaves, spatial ones doubled, polarising ones as they are,
-      each at sub-modes [2 off, 2 off + 2k) *)
+      each at sub-modes [2 off, 2 off + 2k); an empty sub-circuit contributes the identity *)
 Theorem C13_polar_matrix_is_product : forall (R : cring) (c : pcomp R), pwf c ->
   meq (2 * pwidth c) (cmat (pdouble c))
       (oprod (2 * pwidth c) (leaf_mats (2 * pwidth c) (flatten 0 (pdouble c)))).
@@ -32,37 +32,32 @@ Theorem C13_polar_leaves : forall (R : cring) (c : pcomp R), no_empty c -> foral
 Proof. exact flatten_pdouble. Qed.
 Print Assumptions C13_polar_leaves.
 
-(* 3. "The doubled matrix of any such circuit is unitary".
-   Full statement:  forall c, pwf c -> pleaves_unitary c -> unitary (2 * pwidth c) (cmat (pdouble c)).
-   It is FALSE of the code as it is: a sub-circuit without components contributes eye(m) instead of
-   eye(2m) (Circuit.compute_unitary), which numpy broadcasts over the 2x2 block for m = 1. *)
-Theorem C13_polar_unitary_refuted : exists c : pcomp QI,
-  pwf c /\ pleaves_unitary QI c /\ pol_raises c = false /\ ~ unitary (2 * pwidth c) (cmat (pdouble c)).
-Proof. exact polar_unitary_refuted. Qed.
-Print Assumptions C13_polar_unitary_refuted.
-Theorem C13_polar_empty_circuit_refuted : exists c : pcomp QI,
-  pwf c /\ forall U, pol_unitary c <> PolMat (2 * pwidth c) U.
-Proof. exact polar_empty_top_refuted. Qed.
-Print Assumptions C13_polar_empty_circuit_refuted.
-(* ... and true on every circuit that has no empty sub-circuit *)
-Theorem C13_polar_unitary_partial : forall (R : cring) (c : pcomp R),
+(* 3. "The doubled matrix of any such circuit is unitary": every well-formed circuit whose leaves are unitary,
+      empty sub-circuits and the empty circuit included (the code as it is, after fix commit e38f1486) *)
+Theorem C13_polar_unitary : forall (R : cring) (c : pcomp R), pwf c -> pleaves_unitary R c ->
+  pol_unitary c = PolMat (2 * pwidth c) (cmat (pdouble c)) /\
+  unitary (2 * pwidth c) (cmat (pdouble c)).
+Proof. intros R c H1 H2. split. reflexivity. exact (polar_unitary R c H1 H2). Qed.
+Print Assumptions C13_polar_unitary.
+Example C13_polar_unitary_sat : exists c : pcomp QI, pwf c /\ pleaves_unitary QI c.
+Proof. exists (PSub 2 [(0%nat, PLeaf true 2 (pmat pbs_perm)); (0%nat, PSub 1 [])]).
+  split. simpl. lia. simpl. split. apply pbs_unitary. tauto. Qed.
+(* HISTORICAL, about /repo before e38f1486 (model configuration pdouble_old / pol_unitary_old, ids 1310-1313):
+   a sub-circuit without components contributed eye(m) instead of eye(2m), broadcast over the 2x2 block for
+   m = 1; the statement failed on the witness above and held only without empty sub-circuits *)
+Theorem C13_polar_unitary_refuted_old_code : exists c : pcomp QI,
+  pwf c /\ pleaves_unitary QI c /\ pol_raises c = false /\ ~ unitary (2 * pwidth c) (cmat (pdouble_old c)).
+Proof. exact polar_unitary_refuted_old_code. Qed.
+Print Assumptions C13_polar_unitary_refuted_old_code.
+Theorem C13_polar_empty_circuit_refuted_old_code : exists c : pcomp QI,
+  pwf c /\ forall U, pol_unitary_old c <> PolMat (2 * pwidth c) U.
+Proof. exact polar_empty_top_refuted_old_code. Qed.
+Print Assumptions C13_polar_empty_circuit_refuted_old_code.
+Theorem C13_polar_unitary_partial_old_code : forall (R : cring) (c : pcomp R),
   pwf c -> no_empty c -> pleaves_unitary R c ->
-  pol_unitary c = PolMat (2 * pwidth c) (cmat (pdouble c)) /\ unitary (2 * pwidth c) (cmat (pdouble c)).
-Proof. intros R c H1 H2 H3. split. exact (pol_unitary_ok R c H2). exact (polar_unitary R c H1 H2 H3). Qed.
-Print Assumptions C13_polar_unitary_partial.
-Example C13_polar_unitary_partial_sat : exists c : pcomp QI, pwf c /\ no_empty c /\ pleaves_unitary QI c.
-Proof. exists (PSub 2 [(0%nat, PLeaf true 2 (pmat pbs_perm)); (1%nat, PLeaf false 1 mid)]).
-  split; [|split].
-  - simpl. lia.
-  - simpl. split. discriminate. tauto.
-  - simpl. split. apply pbs_unitary. split. apply unitary_id. exact I. Qed.
-(* with the one-line repair of Circuit.compute_unitary (eye(2m) for an empty circuit in polarised mode) the
-   full statement holds: every well-formed circuit with unitary leaves, empty sub-circuits included *)
-Theorem C13_polar_unitary_repaired : forall (R : cring) (c : pcomp R), pwf c -> pleaves_unitary R c ->
-  pol_unitary_fixed c = PolMat (2 * pwidth c) (cmat (pdouble_fixed c)) /\
-  unitary (2 * pwidth c) (cmat (pdouble_fixed c)).
-Proof. intros R c H1 H2. split. reflexivity. exact (polar_unitary_fixed R c H1 H2). Qed.
-Print Assumptions C13_polar_unitary_repaired.
+  pol_unitary_old c = PolMat (2 * pwidth c) (cmat (pdouble_old c)) /\ unitary (2 * pwidth c) (cmat (pdouble_old c)).
+Proof. intros R c H1 H2 H3. split. exact (pol_unitary_old_ok R c H2). exact (polar_unitary_old R c H1 H2 H3). Qed.
+Print Assumptions C13_polar_unitary_partial_old_code.
 (* the polarising leaves themselves: WP, HWP, QWP and PR (also in C14, with the real-angle instances), and the PBS *)
 Theorem C13_pbs_unitary : forall R : cring, unitary 4 (pmat (R:=R) pbs_perm).
 Proof. exact pbs_unitary. Qed.
@@ -73,8 +68,9 @@ Theorem C13_wp_unitary : forall (R : cring) (ii cd sd cx sx : R),
 Proof. exact wp_unitary. Qed.
 Print Assumptions C13_wp_unitary.
 
-(* 4. the preparation matrix built by convert_polarized_state from normalised Jones vectors (first vector
-      and its complement (-conj ev, conj eh), or the second, orthogonal, vector) is unitary *)
+(* 4. the preparation matrix built by convert_polarized_state from normalised Jones vectors (first vector and its
+      complement (-conj ev, conj eh); with two vectors in the mode, that complement times the phase <c, v2>, fix
+      commit 19d38de0) is unitary, the vacuum (identity, 53c82d36) included *)
 Theorem C13_prep_unitary : forall (R : cring) (eqb : R -> R -> bool),
   (forall a b, eqb a b = true <-> a = b) ->
   forall inp : pinput R, Forall (Forall (normed R)) inp ->
@@ -83,39 +79,49 @@ Proof. exact prep_unitary. Qed.
 Print Assumptions C13_prep_unitary.
 Example C13_prep_unitary_sat : Forall (Forall (normed QI)) [[(qi1, qi0); (qi0, qi1)]; []].
 Proof. repeat constructor; unfold normed; apply qi_eq; vm_compute; reflexivity. Qed.
+(* the phase-times-complement column IS the second given vector when both are normalised and orthogonal,
+   and the phase has modulus 1 (so the code's division by |phase| changes nothing) *)
+Theorem C13_second_vector_is_phase_times_complement : forall (R : cring) (v1 v2 : jones R),
+  normed R v1 -> normed R v2 -> inner v1 v2 = k0 ->
+  let ch := kopp (kconj (snd v1)) in let cv := kconj (fst v1) in
+  let ph := kadd (kmul (kconj ch) (fst v2)) (kmul (kconj cv) (snd v2)) in
+  kmul ph ch = fst v2 /\ kmul ph cv = snd v2 /\ kmul ph (kconj ph) = k1.
+Proof. exact complement_phase. Qed.
+Print Assumptions C13_second_vector_is_phase_times_complement.
 
-(* 5. the simulator's route equals the specification, for EVERY output over the sub-modes:
+(* 5. the simulator's route equals the specification, for EVERY output over the sub-modes and every accepted
+      input of normalised Jones vectors -- one or two polarisations per mode, the vacuum included:
       (the engine specification amp_num of C02, applied to U_pol . Prep and the spatial input)
-      = (permanent with one column U_pol . (eh|2k> + ev|2k+1>) per photon).
-   Full statement (with the conversion's outcome):  forall inp accepted by the loop,
-      convert inp = ConvOk s P  /\  amplitudes equal.
-   FALSE of the code as it is for the vacuum: no preparation matrix is returned. *)
-Theorem C13_convert_vacuum_refuted : exists inp : pinput QI,
-  first_err (prep_states (R:=QI) qi_eqb inp) = None /\ forall s P, convert (R:=QI) qi_eqb inp <> ConvOk s P.
-Proof. exact convert_vacuum_refuted. Qed.
-Print Assumptions C13_convert_vacuum_refuted.
-Theorem C13_impl_eq_spec_partial : forall (R : cring) (eqb : R -> R -> bool),
+      = (permanent with one column U_pol . (eh|2k> + ev|2k+1>) per photon) *)
+Theorem C13_impl_eq_spec : forall (R : cring) (eqb : R -> R -> bool),
+  (forall a b, eqb a b = true <-> a = b) ->
+  forall (U : mat R) (inp : pinput R) m, length inp = m -> Forall (Forall (normed R)) inp ->
+  first_err (prep_states eqb inp) = None ->
+  convert eqb inp = ConvOk (spatial_input (prep_states eqb inp)) (prep_matrix (prep_states eqb inp)) /\
+  forall t, impl_amp eqb U m inp t = spec_amp U m inp t.
+Proof. intros R eqb Heq U inp m Hm Hn He. split. exact (convert_ok R eqb inp He).
+  intros t. exact (impl_eq_spec R eqb Heq U inp m t Hm Hn He). Qed.
+Print Assumptions C13_impl_eq_spec.
+Example C13_impl_eq_spec_sat :
+  Forall (Forall (normed QI)) [[(qi1, qi0); (qi0, qi1)]; []] /\
+  first_err (prep_states (R:=QI) qi_eqb [[(qi1, qi0); (qi0, qi1)]; []]) = None.
+Proof. split. exact C13_prep_unitary_sat. vm_compute. reflexivity. Qed.
+(* HISTORICAL, about /repo before 53c82d36 / 19d38de0 (convert_old, impl_amp_old): the vacuum returned no
+   preparation matrix; with a photon somewhere the route already equalled the specification in exact arithmetic
+   (the two-polarisation failure was a floating-point one: float32 annotations against a 1e-8 assertion) *)
+Theorem C13_convert_vacuum_refuted_old_code : exists inp : pinput QI,
+  first_err (prep_states (R:=QI) qi_eqb inp) = None /\ forall s P, convert_old (R:=QI) qi_eqb inp <> ConvOk s P.
+Proof. exact convert_vacuum_refuted_old_code. Qed.
+Print Assumptions C13_convert_vacuum_refuted_old_code.
+Theorem C13_impl_eq_spec_partial_old_code : forall (R : cring) (eqb : R -> R -> bool),
   (forall a b, eqb a b = true <-> a = b) ->
   forall (U : mat R) (inp : pinput R) m, length inp = m ->
   first_err (prep_states eqb inp) = None -> no_photon inp = false ->
-  convert eqb inp = ConvOk (spatial_input (prep_states eqb inp)) (prep_matrix (prep_states eqb inp)) /\
-  forall t, impl_amp eqb U m inp t = spec_amp U m inp t.
-Proof. intros R eqb Heq U inp m Hm He Hp. split. exact (convert_ok R eqb inp He Hp).
-  intros t. exact (impl_eq_spec R eqb Heq U inp m t Hm He). Qed.
-Print Assumptions C13_impl_eq_spec_partial.
-Example C13_impl_eq_spec_partial_sat :
-  first_err (prep_states (R:=QI) qi_eqb [[(qi1, qi0); (qi0, qi1)]; []]) = None /\
-  no_photon (R:=QI) [[(qi1, qi0); (qi0, qi1)]; []] = false.
-Proof. split; vm_compute; reflexivity. Qed.
-(* with the repair (identity preparation matrix when no mode holds a photon): every accepted input *)
-Theorem C13_impl_eq_spec_repaired : forall (R : cring) (eqb : R -> R -> bool),
-  (forall a b, eqb a b = true <-> a = b) ->
-  forall (U : mat R) (inp : pinput R) m, length inp = m -> first_err (prep_states eqb inp) = None ->
-  convert_fixed eqb inp = ConvOk (spatial_input (prep_states eqb inp)) (prep_matrix (prep_states eqb inp)) /\
-  forall t, impl_amp eqb U m inp t = spec_amp U m inp t.
-Proof. intros R eqb Heq U inp m Hm He. split. exact (convert_fixed_ok R eqb inp He).
-  intros t. exact (impl_eq_spec R eqb Heq U inp m t Hm He). Qed.
-Print Assumptions C13_impl_eq_spec_repaired.
+  convert_old eqb inp = ConvOk (spatial_input (prep_states eqb inp)) (prep_matrix_old (prep_states eqb inp)) /\
+  forall t, impl_amp_old eqb U m inp t = spec_amp U m inp t.
+Proof. intros R eqb Heq U inp m Hm He Hp. split. exact (convert_old_ok R eqb inp He Hp).
+  intros t. exact (impl_eq_spec_old R eqb Heq U inp m t Hm He). Qed.
+Print Assumptions C13_impl_eq_spec_partial_old_code.
 (* the executed list of amplitudes is that function on every output *)
 Theorem C13_executed_amplitudes : forall (R : cring) (eqb : R -> R -> bool) (U : mat R) m (inp : pinput R) ts,
   impl_amps eqb U m inp ts = map (impl_amp eqb U m inp) ts.
